@@ -427,11 +427,120 @@ fn replay_part(label: &str, n: usize, mode: Mode, hist: &[Value]) -> Result<(), 
         "MaxAdd@MIN" => go!(AlgMaxAddExt),
         "Min<Rec>" => go!(AlgMinRec),
         "Max<Rec>" => go!(AlgMaxRec),
-        _ => {
+        _ => with_pair(label, ReplayPair { n, mode, hist }).unwrap_or_else(|| {
             eprintln!("replay: unknown algebra {label}");
             std::process::exit(2)
+        }),
+    }
+}
+
+// ------------------------------------------------------------------------------------------------
+// Part F: `Combinator` of a built-in item and an INDEPENDENT harness item, in both positions.
+
+/// a computation that is generic in the algebra, run with the pair algebra a label names
+trait WithAlg {
+    type Out;
+    fn run<A: Alg>(self) -> Self::Out;
+}
+
+#[derive(Clone, Copy, PartialEq)]
+enum Sched {
+    /// the built-in part's values drift (i64 additions): all histories up to a depth
+    Bounded,
+    /// the same with the free algebra as partner (every state remembers its whole history, so the levels grow
+    /// fastest): one level less for n >= 2, but never fewer than two actions (two modifications that cancel
+    /// in the built-in part)
+    BoundedFree,
+    /// both parts finite: closure for n up to the given size (quick, thorough), bounded depth above
+    Closing(usize, usize),
+}
+
+macro_rules! pair_table {
+    ($( $label:literal => $ty:ty, $sched:expr; )*) => {
+        /// one table for exploration and replay: label, how it is explored
+        const PAIRS: &[(&str, Sched)] = &[$(($label, $sched)),*];
+        fn with_pair<V: WithAlg>(label: &str, v: V) -> Option<V::Out> {
+            $( if label == $label { return Some(v.run::<$ty>()); } )*
+            None
+        }
+    };
+}
+
+pair_table! {
+    // the lazy additive built-ins next to: words under the four functions (W), the free algebra (Fr, the
+    // most general lawful partner), words over Z3 under affine maps (A3)
+    "Pair<MinAdd,W>" => Pair<AlgMinAdd, AlgWAdd>, Sched::Bounded;
+    "Pair<W,MinAdd>" => Pair<AlgWAdd, AlgMinAdd>, Sched::Bounded;
+    "Pair<MaxAdd,W>" => Pair<AlgMaxAdd, AlgWAdd>, Sched::Bounded;
+    "Pair<W,MaxAdd>" => Pair<AlgWAdd, AlgMaxAdd>, Sched::Bounded;
+    "Pair<SumAdd,W>" => Pair<AlgSumAdd, AlgWAdd>, Sched::Bounded;
+    "Pair<W,SumAdd>" => Pair<AlgWAdd, AlgSumAdd>, Sched::Bounded;
+    "Pair<MinAdd,Fr>" => Pair<AlgMinAdd, AlgFrAdd>, Sched::BoundedFree;
+    "Pair<Fr,MinAdd>" => Pair<AlgFrAdd, AlgMinAdd>, Sched::BoundedFree;
+    "Pair<MaxAdd,Fr>" => Pair<AlgMaxAdd, AlgFrAdd>, Sched::BoundedFree;
+    "Pair<Fr,MaxAdd>" => Pair<AlgFrAdd, AlgMaxAdd>, Sched::BoundedFree;
+    "Pair<SumAdd,Fr>" => Pair<AlgSumAdd, AlgFrAdd>, Sched::BoundedFree;
+    "Pair<Fr,SumAdd>" => Pair<AlgFrAdd, AlgSumAdd>, Sched::BoundedFree;
+    "Pair<MinAdd,A3>" => Pair<AlgMinAdd, AlgA3Add>, Sched::Bounded;
+    "Pair<A3,MinAdd>" => Pair<AlgA3Add, AlgMinAdd>, Sched::Bounded;
+    "Pair<MaxAdd,A3>" => Pair<AlgMaxAdd, AlgA3Add>, Sched::Bounded;
+    "Pair<A3,MaxAdd>" => Pair<AlgA3Add, AlgMaxAdd>, Sched::Bounded;
+    "Pair<SumAdd,A3>" => Pair<AlgSumAdd, AlgA3Add>, Sched::Bounded;
+    "Pair<A3,SumAdd>" => Pair<AlgA3Add, AlgSumAdd>, Sched::Bounded;
+    // one nesting level further out
+    "Pair<Comb<MinAdd,MaxAdd>,Fr>" => Pair<Comb<AlgMinAdd, AlgMaxAdd>, AlgFrAdd>, Sched::BoundedFree;
+    "Pair<Fr,Comb<MinAdd,MaxAdd>>" => Pair<AlgFrAdd, Comb<AlgMinAdd, AlgMaxAdd>>, Sched::BoundedFree;
+    "Pair<Pair<MaxAdd,W>,SumAdd>" => Pair<Pair<AlgMaxAdd, AlgWAdd>, AlgSumAdd>, Sched::Bounded;
+    // finite on both sides
+    "Pair<SumAdd<Z4>,W>" => Pair<AlgSumAddZ4, AlgWZ4>, Sched::Closing(2, 3);
+    "Pair<W,SumAdd<Z4>>" => Pair<AlgWZ4, AlgSumAddZ4>, Sched::Closing(2, 3);
+    // the NON-lazy built-ins (M = ()) next to lazy items with a data-less modifier
+    "Pair<Min<u8>,Flip>" => Pair<AlgMinU8, AlgFlip>, Sched::Closing(4, 5);
+    "Pair<Flip,Min<u8>>" => Pair<AlgFlip, AlgMinU8>, Sched::Closing(4, 5);
+    "Pair<Sum<Z3>,A3>" => Pair<AlgSumZ3, AlgA3Unit>, Sched::Closing(4, 5);
+    "Pair<A3,Max<u8>>" => Pair<AlgA3Unit, AlgMaxU8>, Sched::Closing(4, 5);
+}
+
+struct RunPair {
+    label: &'static str,
+    n: usize,
+    mode: Mode,
+    depth: Option<usize>,
+    wall: f64,
+}
+impl WithAlg for RunPair {
+    type Out = Part;
+    fn run<A: Alg>(self) -> Part {
+        run_part::<A>(self.label, self.n, self.mode, self.depth, false, self.wall)
+    }
+}
+
+struct ReplayPair<'a> {
+    n: usize,
+    mode: Mode,
+    hist: &'a [Value],
+}
+impl WithAlg for ReplayPair<'_> {
+    type Out = Result<(), String>;
+    fn run<A: Alg>(self) -> Result<(), String> {
+        replay_history(&Sys::<A>::new(self.n, self.mode, true), self.hist)
+    }
+}
+
+/// The pair family: every (label, n) is a small independent exploration, so they run side by side.
+fn pair_parts(mode: Mode, quick: bool, wall: f64) -> Vec<Part> {
+    use rayon::prelude::*;
+    let bounded: &[(usize, usize)] = if quick { &[(1, 4), (2, 4), (3, 3), (4, 2)] } else { &[(1, 5), (2, 5), (3, 4), (4, 3), (5, 2)] };
+    let mut jobs: Vec<RunPair> = vec![];
+    for &(label, sched) in PAIRS {
+        match sched {
+            Sched::Bounded => jobs.extend(bounded.iter().map(|&(n, d)| RunPair { label, n, mode, depth: Some(d), wall })),
+            Sched::BoundedFree => jobs.extend(bounded.iter().map(|&(n, d)| RunPair { label, n, mode, depth: Some(if n >= 2 { (d - 1).max(2) } else { d }), wall })),
+            // closure up to the size that closes inside the budget, bounded depth above it
+            Sched::Closing(q, t) => jobs.extend(bounded.iter().map(|&(n, d)| RunPair { label, n, mode, depth: if n <= (if quick { q } else { t }) { None } else { Some(d) }, wall })),
         }
     }
+    jobs.into_par_iter().map(|j| with_pair(j.label, j).unwrap()).collect()
 }
 
 struct Sweep {
@@ -687,6 +796,11 @@ fn main() {
         parts.push(run_part::<Comb<Comb<AlgMinAdd, AlgMaxAdd>, AlgSumAdd>>("Comb<Comb<MinAdd,MaxAdd>,SumAdd>+stale-tags", n, mode, Some(d), true, wall));
     }
 
+    // Part F: Combinator<built-in, harness item> and Combinator<harness item, built-in> with independent parts
+    let t_pairs = std::time::Instant::now();
+    parts.extend(pair_parts(mode, quick, wall));
+    let pairs_wall = t_pairs.elapsed().as_secs_f64();
+
     // Part E: size sweep — directed histories on the free algebra for many sizes (every n up to 40/130,
     // and the neighbours of powers of two up to 1025/4097), all three constructors, boundary-targeted
     // modifications, then ALL (l, r) queries (n <= 40) or all pairs of boundary positions
@@ -741,14 +855,20 @@ fn main() {
     run.cov("distinct_outcomes", outcomes);
     run.cov("exhaustive", all_closed && !run.has_violations());
     run.cov("parts", Value::Array(table));
-    run.cov("rule", "per (algebra, n): BFS over the real Segtree's node array (hook verif_nodes) + plain-array model; every set/modify/ask (C02: also every lower_bound/lower_bound_rev for every predicate of the family at every position; C01: debug) applied in every reached state; parts without depth_bound run to closure (histories of any length), parts with depth_bound cover all histories up to that depth; all three constructor families are initial states of the closing parts");
+    run.cov("rule", "per (algebra, n): BFS over the real Segtree's node array (hook verif_nodes) + plain-array model; every set/modify/ask (C02: also every lower_bound/lower_bound_rev for every predicate of the family at every position; C01: debug) applied in every reached state; parts without depth_bound run to closure (histories of any length), parts with depth_bound cover all histories up to that depth; all three constructor families are initial states of the closing parts. Parts named Pair<X,Y> are Combinator<X,Y> of one built-in item (MinAdd, MaxAdd, SumAdd, and the non-lazy Min, Max, Sum) and one INDEPENDENT non-commutative harness item (W, A3, the free algebra Fr, Flip), in both positions and one nesting level out; the harness part receives the built-in's modifiers through a fixed translation (i64: +1 -> not / x+1 / letter 1, -1 -> const0 / :=0 / letter 2, +2 -> identity / x+2 / letter 3, 0 -> const1 / :=1 / letter 4; Z4: 1,2,3 -> not,const0,const1; (): x+1 on Z3), so modifiers that cancel in the built-in part (+1 then -1, a 0) stay pending in the other part and vice versa; the reference is the pair of the two plain-array models; from_iter of all vectors over two element letters are the initial states");
+    run.cov("pair_family", json!({"algebras": PAIRS.iter().map(|p| p.0).collect::<Vec<_>>(), "wall_s": (pairs_wall * 100.0).round() / 100.0, "note": "explored side by side (rayon), so the wall_s of the parts overlap; wall_s here is the whole family"}));
     run.assume("harness item algebras W, A3, Fr satisfy the monoid-action laws (merge associative with Default as identity, modify distributes over merge, push = apply pending modifiers to both children in order); a node covering one element never records a pending tag (it has no children, so no tree can read it)");
+    run.assume("a harness item driven through a translation of another modifier alphabet (Pair parts) is lawful for every translation: the tree never composes modifiers, it only hands each one to the items, and the wrapped item composes and pushes the translated modifiers as before");
     run.assume("state identity = encoded node array (all slots, including those the tree never addresses) + plain-array model");
     // non-vacuity
     if !run.has_violations() {
         let w_last = parts.iter().filter(|p| p.name == "W").last().unwrap();
         if w_last.res.states < 1000 || judged < 10_000 || outcomes < 50 {
             run.machinery_failure("exploration implausibly small");
+        }
+        let pair_states: u64 = parts.iter().filter(|p| p.name.starts_with("Pair<")).map(|p| p.res.states).sum();
+        if pair_states < 100_000 || parts.iter().any(|p| p.name.starts_with("Pair<") && p.res.transitions == 0) {
+            run.machinery_failure("pair family implausibly small");
         }
     }
     run.finish(&confirm)
